@@ -300,6 +300,8 @@ for _p in ('C15', 'C09', 'C02'):
 DECODE = [(D, 'ber.decoder::Decoder.__call__')]
 for _p in ('C07', 'C06', 'C01'):
     PROPS[_p]['contracts'] = PROPS[_p]['contracts'] + DECODE
+for _p in ('C11', 'C05', 'C07'):
+    PROPS[_p]['tables'] = PROPS[_p]['tables'] + ['mark']
 BS = 'contracts.base'
 BASE = [(BS, 'type.base::SimpleAsn1Type.__init__'), (BS, 'type.base::SimpleAsn1Type.clone'),
         (BS, 'type.base::SimpleAsn1Type.subtype')]
@@ -311,6 +313,9 @@ TG = 'contracts.tag'
 TAGS = [(TG, 'type.tag::TagSet.tagImplicitly'), (TG, 'type.tag::TagSet.tagExplicitly'),
         (TG, 'type.tag::TagSet.isSuperTagSetOf')]
 TAGMAP = [(TG, 'type.tagmap::TagMap.__getitem__'), (TG, 'type.tagmap::TagMap.__contains__')]
+for _p in ('C01', 'C03', 'C09'):
+    PROPS[_p]['contracts'] = PROPS[_p]['contracts'] + TAGS[:2]
+PROPS['C07']['contracts'] = PROPS['C07']['contracts'] + [c for c in WRAPPER if c not in PROPS['C07']['contracts']]
 for _p in ('C13', 'C15', 'C16'):
     PROPS[_p]['contracts'] = PROPS[_p]['contracts'] + TAGMAP
 PROPS['C13']['contracts'] = PROPS['C13']['contracts'] + TAGS
@@ -400,7 +405,12 @@ def conc_simple_derive(oid, m):
     return {'runner': 'replayers.types:simple_derive_funnel', 'args': {'method': method}}
 
 
+def conc_wrapper_mark(oid, m):
+    return {'runner': 'replayers.streaming:wrapper_mark_keeps_lookahead', 'args': {'back': 2}}
+
+
 CONCRETISERS = {
+    'codec.streaming::CachingStreamWrapper.markedPosition.setter': conc_wrapper_mark,
     'type.base::SimpleAsn1Type.clone': conc_simple_derive,
     'type.base::SimpleAsn1Type.subtype': conc_simple_derive,
     'type.constraint::AbstractConstraintSet.__add__[1]': conc_constraint_add,
